@@ -57,6 +57,7 @@ type Session struct {
 	Reach0    string
 	StartTxid uint64 // header active when tracing starts (after the first Open)
 	StartSlot int
+	NoReach   bool // concurrent runs: do not read engine internals from a second goroutine
 
 	mu       sync.Mutex
 	Trace    bytes.Buffer
@@ -88,7 +89,7 @@ func (s *Session) markState() {
 // recordReach stores, per committed transaction id, the physical pages (with content hashes)
 // the committed state depends on: used by the Lean crash acceptor (C06 via C01).
 func (s *Session) recordReach() {
-	if s.F == nil {
+	if s.F == nil || s.NoReach {
 		return
 	}
 	defer func() { recover() }()
@@ -229,7 +230,9 @@ func (s *Session) guard(op string, fn func() error) (res string) {
 	}()
 	s.mu.Lock()
 	s.OpCount[op]++
+	step := s.Step
 	s.mu.Unlock()
+	engine.LastOp.Store(fmt.Sprintf("pq %s (step %d)", op, step))
 	res = ErrKind(fn())
 	if res != "ok" {
 		s.mu.Lock()
